@@ -24,7 +24,7 @@ na = [dict(property_id=p, reason=NOT_CLAIMED[p]) for p in ids if p not in PROPS]
 m = dict(
     version=1,
     setup_cmd="./setup.sh",
-    hooks=dict(guard="verif", enable="harness is compiled into the repo module by `go build -tags verif -overlay` (no source hook needed so far)",
+    hooks=dict(guard="verif", enable="harness is compiled into the repo module by `go build -tags verif -overlay` ; hook files under /verif/harness/hooks/<package>/ (build tag verif) are injected into the named repository packages by the same overlay and never written to /repo: fhirpath/patch/zz_verif_hook.go exposes VerifEvaluate (LastResult, BeforeLastResult, result of a patch expression)",
                baseline_off_cmd="cd /repo && GOFLAGS=-mod=mod go test -vet=off -count=1 ./...", source_commits=[], add_only=True),
     engines=[dict(name="lean-proof+correspondence", path="/verif/check", serves_properties=[c["property_id"] for c in checks],
                   kind_free_text="Lean 4 proofs over a model that is regenerated from the Go source (tools/gen) and tied to the running code by a differential line protocol (harness + compiled Lean driver)")],
